@@ -1,4 +1,5 @@
 import MindsVerif.Lemmas.PlanQ
+import MindsVerif.Lemmas.Catalog
 /-!
 # C09 — every emitted plan is a well-formed, forward-only dataflow program
 
@@ -30,6 +31,16 @@ on every run by the obligation `pin:add_plan_step-variant-repaired` of `tools/pr
   `C09_join_unrepaired` (the invariant held outside the fall-through class `¬ noFallThrough`),
   `C09_regress_unrepaired_plan`, `C09_regress_unrepaired_{1,2,3}` (what it emitted inside that class), and
   `C09_regress_repaired_plan`, `C09_regress_repaired_{1,3}` (what the live variant emits for the same inputs).
+* Round 5 — the CATALOG look-ups (`Model/Catalog.lean`: registration of a predictor-metadata entry in its three forms,
+  `integration_name`, `timeseries`, `order_by_column`, `group_by_columns`, `window`, `to_predict`, an integration's `type`,
+  each over absent / `None` / booleans / numbers / strings / lists / `{}`), which choose the skeleton:
+  `C09_catalog` (for every variant `fx` of the code, every record whose `integration_name` is absent / `None` / the project
+  and that meets the restrictions `ShapeOK fx` the variant still has, every metadata form, every catalog-sensitive
+  statement, from every well-formed plan: a well-formed plan or a user-level error), `C09_catalog_total` (with the
+  repairs `fixes/C09_r5_1…3.diff` there is NO restriction: `C09_catalog_full CatFix.repaired`), `C09_catalog_live`
+  (the code as it is, under `ShapeOK CatFix.live`), `C09_catalog_not_full_live` + `C09_witness_r5_*` (the code as it is
+  raises `KeyError` / `AttributeError` / `TypeError` outside `ShapeOK`: known findings KF-C09-8…11), `C09_integration`.
+  Which variant the library follows is decided on every run by the correspondence stream `catalog`.
 -/
 namespace MindsVerif.Props.C09
 open MindsVerif.Plan
@@ -230,5 +241,103 @@ example : stepsOK 0 (addStep [⟨.fetch, some (.top 0), [], []⟩]
     ∧ (addStep [⟨.fetch, some (.top 0), [], []⟩]
       ⟨.mapreduce, none, [.top 0], [⟨.apply, some (.sub 1 0), [.top 0]⟩]⟩).length = 2 :=
   C09_add_step _ _ rfl (Or.inl rfl) (by decide) (by decide)
+
+/-! ### round 5: catalog record SHAPES (`Model/Catalog.lean`) -/
+
+/-- the total-function property of the catalog look-ups for variant `fx` of the code: for every predictor-metadata
+record `r` of the documented domain (`integration_name` absent, `None` or the project's name; every other key absent or
+holding ANY value), in every metadata form, for every catalog-sensitive statement and from every well-formed plan,
+`QueryPlanner(…)` + planning returns a well-formed plan or raises a user-level error -/
+def C09_catalog_full (fx : CatFix) : Prop :=
+  ∀ (form : Form) (proj pns : Name) (r : Rec) (q : CQ) (plan : List Step),
+    lowerName pns = lowerName proj → NsOK proj r = true → stepsOK 0 plan = true →
+    C09_body (planCat fx form proj pns r q) plan
+
+/-- every variant of the code, on the records that meet the restrictions the variant still has -/
+theorem C09_catalog (fx : CatFix) (form : Form) (proj pns : Name) (r : Rec) (q : CQ) (plan : List Step)
+    (hp : lowerName pns = lowerName proj) (hns : NsOK proj r = true) (hs : ShapeOK fx form r = true)
+    (hok : stepsOK 0 plan = true) : C09_body (planCat fx form proj pns r q) plan :=
+  body_of_good (planCat_good fx form proj pns r q hp hns hs) plan (Nat.zero_le _) hok
+
+/-- **with the repairs `fixes/C09_r5_1…3.diff` the catalog look-ups are total on the whole documented domain** -/
+theorem C09_catalog_total : C09_catalog_full CatFix.repaired :=
+  fun form proj pns r q plan hp hns hok => C09_catalog CatFix.repaired form proj pns r q plan hp hns rfl hok
+
+/-- **the code as it is**: C09 holds on the records of the shape the happy path expects (`ShapeOK CatFix.live`: a string /
+defaulted namespace; a time-series model has a string `order_by_column`, a present sized `group_by_columns`, a present
+`window`; `to_predict` is absent, `None`, a string or a non-empty list) -/
+theorem C09_catalog_live (form : Form) (proj pns : Name) (r : Rec) (q : CQ) (plan : List Step)
+    (hp : lowerName pns = lowerName proj) (hns : NsOK proj r = true) (hs : ShapeOK CatFix.live form r = true)
+    (hok : stepsOK 0 plan = true) : C09_body (planCat CatFix.live form proj pns r q) plan :=
+  C09_catalog CatFix.live form proj pns r q plan hp hns hs hok
+
+/-- an integration given as a dict: the constructor's `type` read, then a statement shipped whole -/
+theorem C09_integration (fx : CatFix) (r : IRec) (plan : List Step) (h : (fx.itype || (r.get .type).isSome) = true)
+    (hok : stepsOK 0 plan = true) : C09_body (planIntegration fx r) plan :=
+  body_of_good (planIntegration_good fx r h) plan (Nat.zero_le _) hok
+
+/-- `"proj"`, `"t"`, `"g"`, `"y"` -/
+def nProj : Name := [112, 114, 111, 106]
+def nT : Name := [116]
+def nG : Name := [103]
+def nY : Name := [121]
+
+/-- `SELECT * FROM int1.tab1 ta JOIN proj.m tb WHERE ta.t > LATEST` -/
+def qLatest : CQ := .modelJoin ⟨nT, .latest, none, false, true, false⟩
+/-- `SELECT * FROM int1.tab1 a JOIN proj.m b` -/
+def qPlain : CQ := .modelJoin ⟨nT, .none, none, false, true, false⟩
+
+/-- a complete time-series record -/
+def recTS : Rec := [(.integrationName, .str nProj), (.timeseries, .bool true), (.orderBy, .str nT),
+  (.groupBy, .strs [nG]), (.window, .num 5)]
+
+/-- KF-C09-8 (code as it is): a time-series model whose record has no `window` → `KeyError` -/
+theorem C09_witness_r5_1 : ¬ C09_body (planCat CatFix.live .list nProj nProj
+    [(.integrationName, .str nProj), (.timeseries, .bool true), (.orderBy, .str nT), (.groupBy, .strs [nG])] qLatest) [] := by decide
+/-- KF-C09-8: `order_by_column: None` → `AttributeError`; `group_by_columns: False` → `TypeError`;
+`timeseries: True` on a record without any setting → `KeyError` -/
+theorem C09_witness_r5_1b : ¬ C09_body (planCat CatFix.live .legacy nProj nProj
+    [(.timeseries, .bool true), (.orderBy, .null), (.groupBy, .strs [nG]), (.window, .num 5)] qLatest) [] := by decide
+theorem C09_witness_r5_1c : ¬ C09_body (planCat CatFix.live .list nProj nProj
+    [(.timeseries, .bool true), (.orderBy, .str nT), (.groupBy, .bool false), (.window, .num 5)] qLatest) [] := by decide
+theorem C09_witness_r5_1d : ¬ C09_body (planCat CatFix.live .list nProj nProj [(.timeseries, .num 1)] qPlain) [] := by decide
+/-- KF-C09-9: a model that reports no target (`to_predict: []`) joined with a table → `AttributeError` -/
+theorem C09_witness_r5_2 : ¬ C09_body (planCat CatFix.live .list nProj nProj
+    [(.integrationName, .str nProj), (.toPredict, .strs [])] qPlain) [] := by decide
+/-- KF-C09-10: `integration_name: None` (list form) → `AttributeError` in the constructor; a dotted legacy name
+without `integration_name` → `KeyError` -/
+theorem C09_witness_r5_3 : ¬ C09_body (planCat CatFix.live .list nProj nProj [(.integrationName, .null)] qPlain) [] := by decide
+theorem C09_witness_r5_3b : ¬ C09_body (planCat CatFix.live .dotted nProj nProj [] (.modelSelect false true)) [] := by decide
+/-- KF-C09-11: an integration dict without `type` → `KeyError` in the constructor -/
+theorem C09_witness_r5_4 : ¬ C09_body (planIntegration CatFix.live [(.classType, .str [115, 113, 108])]) [] := by decide
+
+/-- hence the code as it is does NOT have the total-function property (it does on `ShapeOK`: `C09_catalog_live`) -/
+theorem C09_catalog_not_full_live : ¬ C09_catalog_full CatFix.live :=
+  fun h => C09_witness_r5_2 (h .list nProj nProj _ qPlain [] rfl (by decide) rfl)
+
+/-- the same inputs with the repairs: a user-level error or a plan -/
+example : C09_body (planCat CatFix.repaired .list nProj nProj
+    [(.integrationName, .str nProj), (.timeseries, .bool true), (.orderBy, .str nT), (.groupBy, .strs [nG])] qLatest) [] := by decide
+example : C09_body (planCat CatFix.repaired .list nProj nProj [(.integrationName, .str nProj), (.toPredict, .strs [])] qPlain) [] := by decide
+example : C09_body (planCat CatFix.repaired .dotted nProj nProj [] (.modelSelect false true)) [] := by decide
+example : C09_body (planIntegration CatFix.repaired [(.classType, .str [115, 113, 108])]) [] := by decide
+
+/-- `group_by_columns: None` describes an ungrouped time-series model — in BOTH variants it reads as "no groups" (the
+seeded change C09_10 broke exactly this; the stream `catalog` compares it on every run) -/
+example : (tsSettings CatFix.live ((.groupBy, .null) :: recTS)).toOption = some ⟨nT, []⟩ := by decide
+example : (tsSettings CatFix.repaired ((.groupBy, .null) :: recTS)).toOption = some ⟨nT, []⟩ := by decide
+/-- … and the plan is the ungrouped one: fetch, apply, join -/
+example : ((planCat CatFix.live .list nProj nProj ((.groupBy, .null) :: recTS) qLatest) []).toOption =
+    some ([⟨.fetch, some (.top 0), [], []⟩, ⟨Kind.applyTS, some (.top 1), [.top 0], []⟩,
+           ⟨.join, some (.top 2), [.top 1, .top 0], []⟩], .top 2) := by decide
+/-- the grouped record: partitions, map-reduce, apply, join -/
+example : ((planCat CatFix.live .list nProj nProj recTS qLatest) []).toOption.map (fun r => (r.1.length, r.2)) =
+    some (4, .top 3) := by decide
+
+/-- non-vacuity: the hypotheses of `C09_catalog_live` are met by the complete record (and by a plain model) -/
+example : NsOK nProj recTS = true ∧ ShapeOK CatFix.live .list recTS = true := by decide
+example : ShapeOK CatFix.live .dotted [(.integrationName, .str nProj), (.toPredict, .strs [nY])] = true := by decide
+example : C09_body (planCat CatFix.live .list nProj nProj recTS qLatest) [] :=
+  C09_catalog_live .list nProj nProj recTS qLatest [] rfl (by decide) (by decide) rfl
 
 end MindsVerif.Props.C09
